@@ -285,6 +285,21 @@ def check_tree(ctx, t, ctxd, P, mode_lib=False, report=True):
                 bad.append(("repr-differs:" + minimal(t, ctxd, P, "repr"), "eval(%r) = %r but the tree means %r" % (src, back, want)))
         except Skip:
             pass
+    # str() monitor: generated code inlines several parameters through str(), so it must denote the same function too
+    try:
+        src2 = str(e)
+        if src2 != (src if code is not None else None):
+            code2 = compile(src2, "<str>", "eval")
+            back2 = outcome(lambda: eval(code2, binds))
+            ctx.count("str_compared")
+            if not same(want, back2):
+                bad.append(("str-differs:" + minimal_static(t), "eval(str(expr)=%r) = %r but the tree means %r" % (src2, back2, want)))
+        else:
+            ctx.count("str_equals_repr")
+    except Skip:
+        pass
+    except Exception as ex:
+        bad.append(("str-not-python:" + minimal_static(t), "str(expr) %r is not an evaluable expression: %s" % (str(e), ex)))
     if mode_lib and family == "this" and want[0] == "ok":
         from construct import Struct, Computed
         try:
